@@ -227,6 +227,14 @@ func registerCodecs() {
 		}
 		return Sc{hasPrefix(a[0].(Str), p.Conc)}
 	}))
+	add("strings.Compare", simple(func(e *Engine, s *State, a []Value, at ssa.Instruction, sf *ssa.Function) Value {
+		a1, l1, m1, ok1 := a[0].(Str).asBytes()
+		a2, l2, m2, ok2 := a[1].(Str).asBytes()
+		if !ok1 || !ok2 {
+			panic(engErr("strings.Compare on an opaque string; the harness must provide a byte string"))
+		}
+		return Sc{bytesCompare(a1, Idx(0), l1, m1, a2, Idx(0), l2, m2)}
+	}))
 	add("strings.TrimPrefix", simple(func(e *Engine, s *State, a []Value, at ssa.Instruction, sf *ssa.Function) Value {
 		st, p := a[0].(Str), a[1].(Str)
 		if p.Kind != 0 {
